@@ -444,6 +444,11 @@ def gen_cases(rng, tier):
     add(depth=0, default="npy")
     add(depth=0, default="fits", coordsys="planetary", kind="i32")
     add(depth=0, default="png", kind="rgb", clobber=False)
+    # depth 0 through the filtered/updating entry point in the PLANETARY system (the level-0
+    # grid is built by the sampler itself, so the coordinate system must reach it), also via Builder
+    add(depth=0, default="npy", kind="f64", clobber=False, coordsys="planetary")
+    add(depth=0, default="fits", kind="f64", clobber=False, coordsys="planetary", via="builder")
+    add(depth=0, default="npy", kind="i32", coordsys="planetary", via="builder")
     # every format x parity, clobber, with and without an override
     for default, override, kind in [("npy", None, "f64"), ("fits", None, "f64"), ("png", None, "rgb"), ("npy", None, "i32"),
                                     ("fits", None, "i32"), ("npy", None, "rgb"), ("png", "npy", "f64"), ("npy", "png", "rgb"),
